@@ -386,6 +386,10 @@ impl<'tcx> Cx<'tcx> {
 		if matches!(kind, DefKind::Fn | DefKind::AssocFn) {
 			let vis = tcx.visibility(did);
 			let _ = write!(o, ",\"pub\":{}", vis.is_public());
+			if let ty::Visibility::Restricted(r) = vis {
+				let pm = tcx.parent_module_from_def_id(def).to_def_id();
+				let _ = write!(o, ",\"priv\":{}", r == pm && !pm.is_crate_root());
+			}
 			let _ = write!(o, ",\"async\":{}", tcx.asyncness(did).is_async());
 			if let Some(ai) = tcx.opt_associated_item(did) {
 				if let Some(imp) = ai.impl_container(tcx) {
